@@ -16,7 +16,7 @@ META = dict(
     functions=['scared.signal_processing.moving_operators:moving_sum/moving_mean/moving_var/moving_std/moving_skew/moving_kurtosis', 'scared.signal_processing.base:pad/cast_array',
                'scared.signal_processing.pattern_detection:correlation/distance/bcdc', 'scared.signal_processing.peaks_detection:find_peaks/_find_peaks_numba_core/find_width/extract_around_indexes'],
     bounds=dict(quick='moving operators: symbolic arrays of shape (5,), (2,4), (2,3,4), every axis (both spellings), every window 1..len; pattern scores: trace of 5, patterns of 2 and 3 symbolic samples; '
-                      'pad / extract_around_indexes on symbolic arrays; find_width: 5 symbolic samples, symbolic threshold, both directions, 5 width-bound settings (masks by forking); '
+                      'pad / extract_around_indexes on symbolic arrays; find_width: 5 symbolic samples, symbolic threshold, both directions, 5 width-bound settings (masks by forking); find_peaks on one 33010-sample trace (zeros, three symbolic isolated peaks); pattern scores also with the pattern taken as a view of the trace; '
                       'find_peaks: whole function on 4 symbolic samples (float and uint8) with symbolic height and every distance 0..4; peak elimination core on 3 and 4 candidates at several spacings with symbolic values',
                 thorough='find_peaks on 5 samples, find_width on 6'),
     assumptions=['exact reals; scipy.signal.correlate(a, b, "valid") is the defining sliding dot product', 'std / skew / kurtosis / correlation are compared through squares (sqrt symbols) and signs'],
@@ -57,7 +57,7 @@ def jobs(tier, seed):
     js += [dict(name='pattern', kind='pattern'), dict(name='pad-extract', kind='padx')]
     js += [dict(name=f'find-width-{d}', kind='width', direction=d, n=5 if tier == 'quick' else 6) for d in ('POSITIVE', 'NEGATIVE')]
     js += [dict(name=f'find-peaks-{dt}-d{d}', kind='peaks', dt=dt, d=d, n=4 if tier == 'quick' else 5) for dt in ('float64', 'uint8') for d in range(0, 5)]
-    js += [dict(name='peaks-core', kind='core')]
+    js += [dict(name='peaks-core', kind='core'), dict(name='find-peaks-long-trace', kind='peaks-long')]
     return js
 
 
@@ -344,6 +344,33 @@ def job_peaks(job, res):
     explore(res, body, max_paths=4000, timeout_ms=20000, exact=True)
 
 
+LONG_N, LONG_POS = 33010, (7, 32800, 33005)
+
+
+def job_peaks_long(job, res):
+    """A long trace (more samples than a 16-bit index can address): zeros except three symbolic peaks, concrete height threshold.
+    Every isolated peak must be returned, wherever it sits."""
+    peaks = _m['peaks']
+
+    def body(ex, pr):
+        hs = [E.register(z3.Real(f'p{i}')) for i in range(len(LONG_POS))]
+        for t in hs:
+            ex.assume(t > 1)
+        c = rnp.zeros(LONG_N, dtype=object)
+        for i in range(LONG_N):
+            c[i] = 0.0
+        for pos, t in zip(LONG_POS, hs):
+            c[pos] = t
+        x = S.ndarray_impl(c, rnp.dtype('float64'))
+        wit = lambda m: dict(kind='peaks-long', heights=[float(L.frac_of_model(m, t)) for t in hs], key=dict(kind='peaks-long'))  # noqa: E731
+        done, out = guarded(pr, f'find_peaks(trace of {LONG_N} samples)', wit, lambda: peaks.find_peaks(x, 5, 0.5))
+        if not done:
+            return
+        got = [int(v) for v in S._w(out).typed()] if not S._w(out).sym else None
+        pr.prove(z3.BoolVal(got == list(LONG_POS)), f'find_peaks on {LONG_N} samples (zeros, three isolated peaks of any height > 1 at {LONG_POS}, min_peak_distance 5, height 0.5) returns exactly those positions (got {got})', wit)
+    explore(res, body, max_paths=64, timeout_ms=20000, exact=True)
+
+
 def _call_peaks(peaks, x, d, h):
     """find_peaks with the numeric type check of min_peak_height bypassed for the symbolic height (everything else is the real body)."""
     import builtins
@@ -422,7 +449,7 @@ def job_core(job, res):
 
 def run_job(job):
     res = new_result(job['name'])
-    {'moving': job_moving, 'pattern': job_pattern, 'padx': job_padx, 'width': job_width, 'peaks': job_peaks, 'core': job_core}[job['kind']](job, res)
+    {'moving': job_moving, 'pattern': job_pattern, 'padx': job_padx, 'width': job_width, 'peaks': job_peaks, 'core': job_core, 'peaks-long': job_peaks_long}[job['kind']](job, res)
     return res
 
 
@@ -457,6 +484,12 @@ def replay(w):
             if out.shape != exp.shape or not np.allclose(out, exp, rtol=1e-6, atol=1e-8, equal_nan=True):
                 return dict(reproduced=True, detail=f'{fn}(data{shape}, {win}, axis={axis}): shape {out.shape} vs {exp.shape}; values differ from the naive window statistic')
         return dict(reproduced=False, detail='agrees with the naive windows')
+    if w['kind'] == 'peaks-long':
+        x = np.zeros(LONG_N)
+        for pos, hv in zip(LONG_POS, w['heights']):
+            x[pos] = hv
+        out = [int(v) for v in sp.find_peaks(x, 5, 0.5)]
+        return dict(reproduced=out != list(LONG_POS), detail=f'find_peaks on {LONG_N} samples with peaks {w["heights"]} at {LONG_POS} returned {out}')
     if w['kind'] == 'pattern':
         k = w['k']
         tries = [(L.to_numpy(w['t']), L.to_numpy(w['p']))] + [(np.array([rnd.uniform(-3, 3) for _ in range(5)]), np.array([rnd.uniform(-3, 3) for _ in range(k)])) for _ in range(4)]
